@@ -1,7 +1,31 @@
-(* P19: properties of the small-step engine-loop model coq/Engine/Impl.v (statements only; proofs in Engine/ImplProofs*.v). *)
+(* P19: properties of the small-step engine-loop model coq/Engine/Impl.v (statements only; proofs in Engine/ImplProofs*.v).
+   The model is tied to lib/Core/BuildEngine.cpp by the exact-interleaving differential of harness/py/props/impl.py.
+   [msteps]: any sequence of the steps the loop is made of (a completion arriving, one item of one of the five queues), in ANY
+   order - the loop under every schedule is such a sequence (impl_loop_iteration_steps).  [is_fault s = None]: no assert of the
+   code has failed so far (impl_no_fault: holds for every state reachable in a build). *)
 From LLB Require Import Engine.Rules Engine.Spec Engine.Impl.
+From LLB Require Import Engine.ImplProofs Engine.ImplProofsMono Engine.ImplProofsLoop.
+Local Open Scope N_scope.
 
-(* placeholder while the proofs are being written: the initial state has no work *)
-Theorem impl_init_idle : has_work init_istate = false.
-Proof. reflexivity. Qed.
-Print Assumptions impl_init_idle.
+(* one iteration of the loop, under any schedule, is a sequence of steps *)
+Theorem impl_loop_iteration_steps : forall rules env F ord syncp stalled fuel s comps,
+  is_fault (fst (loop_iteration_gen rules env F ord syncp stalled fuel s comps)) = None ->
+  msteps rules env F ord syncp s (fst (loop_iteration_gen rules env F ord syncp stalled fuel s comps)).
+Proof. exact loop_iteration_msteps. Qed.
+Print Assumptions impl_loop_iteration_steps.
+
+(* within one build a rule's state kind only moves forward in the order
+   Incomplete < IsScanning < {NeedsToRun, DoesNotNeedToRun} < InProgressWaiting < InProgressComputing < Complete(current epoch) *)
+Theorem impl_state_monotone : forall rules env F ord syncp s s',
+  msteps rules env F ord syncp s s' -> is_fault s' = None ->
+  is_fault s = None /\ is_epoch s' = is_epoch s /\ forall k, (krank s k <= krank s' k)%nat.
+Proof. exact state_monotone. Qed.
+Print Assumptions impl_state_monotone.
+
+(* C02 on the small-step model: at most one createTask (and at most one inputsAvailable) per key and build *)
+Theorem impl_at_most_once : forall rules env F ord syncp s s',
+  msteps rules env F ord syncp s s' -> is_fault s' = None ->
+  exists l, is_log s' = l ++ is_log s /\
+            forall k, (count_ev (is_create k) l <= 1)%nat /\ (count_ev (is_avail k) l <= 1)%nat.
+Proof. exact at_most_once. Qed.
+Print Assumptions impl_at_most_once.
